@@ -1,5 +1,13 @@
 """C02: validation guards of the readout schedule and the table of Detector.empty -> Gallina.
 
+Every function named below is first brought into NORMAL FORM by translator/c02_norm.py (behaviour-preserving rewrites
+with explicit side conditions: helpers of the same module / class / package inlined, single-assignment locals
+substituted, guard clauses == elif chains, early return / continue == nested if, module-level literal constants, loops over
+constant tuples unrolled, manual counter == enumerate, constant tests folded, match / chained comparison / conditional
+expression); the shapes listed here are shapes of the normal form, so a refactoring that does not change what a
+function does translates to the same table, and one that does (a dropped argument, an alias taken before a
+reassignment, a guard clause with the wrong polarity) does not.
+
 Extracted (fail closed on any other shape):
 
 * `Readout.__init__`              (pyxel/exposure/readout.py)   -> g_ctor, and g_ndarray: is a numpy array given as
